@@ -11,7 +11,6 @@ import (
 	"strings"
 
 	"github.com/aperturerobotics/bifrost/crypto"
-	"github.com/aperturerobotics/bifrost/keypem/keyfile"
 	"github.com/aperturerobotics/bifrost/peer"
 	"github.com/sirupsen/logrus"
 
@@ -32,7 +31,7 @@ func writeFile(p string, b []byte) {
 	}
 }
 
-func (e *engine) keyFileCase(c fsCase, useLog bool) {
+func (e *engine) keyFileCase(c fsCase, useLog bool, via string) {
 	dir, err := os.MkdirTemp("", "verif-c39-")
 	if err != nil {
 		panic(err)
@@ -50,7 +49,7 @@ func (e *engine) keyFileCase(c fsCase, useLog bool) {
 	var key crypto.PrivKey
 	var kerr error
 	impl := lib.Recover(func() string {
-		key, kerr = keyfile.OpenOrWritePrivKey(le, path)
+		key, kerr = loadKeyVia(via, le, path)
 		return ""
 	})
 	mon := panicMon(impl, "OpenOrWritePrivKey")
@@ -118,9 +117,12 @@ func (e *engine) keyFileCase(c fsCase, useLog bool) {
 				std := ed25519.NewKeyFromSeed(raw[:32])
 				blk, _ := pem.Decode(after)
 				st, serr := os.Stat(path)
-				key2, err2 := keyfile.OpenOrWritePrivKey(le, path)
+				key2, err2 := loadKeyVia(via, le, path)
 				after2, _ := os.ReadFile(path)
+				dup := e.noteGenerated(raw, "OpenOrWritePrivKey "+via+" "+c.class)
 				switch {
+				case dup != "":
+					mon = dup
 				case len(raw) != 64 || !bytes.Equal(std, raw):
 					mon = "generated key is not a well-formed Ed25519 key"
 				case rerr != nil || blk == nil || blk.Type != "LIBP2P PRIVATE KEY" || !bytes.Equal(blk.Bytes, keyMsg(1, raw)):
@@ -146,6 +148,10 @@ func (e *engine) keyFileCase(c fsCase, useLog bool) {
 				mon = "OpenOrWritePrivKey modified an existing key file"
 			}
 		}
+	}
+	if via != "" {
+		e.rep.Compare(op+" via="+via, model, canonPanic(impl), via+"Key."+c.class, "config."+via+"Key:"+c.class, mon)
+		return
 	}
 	e.rep.Compare(op, model, canonPanic(impl), "openOrWrite."+c.class, key39, mon)
 }
@@ -257,11 +263,21 @@ func (e *engine) runC39() {
 		req = append(req, "openOrWrite."+c.class)
 	}
 	e.rep.Require(req...)
+	var req2 []string
+	for _, c := range cases {
+		req2 = append(req2, "pipeKey."+c.class)
+	}
+	e.rep.Require(req2...)
 	reps := 10 * e.a.Scale
 	for r := 0; r < reps; r++ {
 		for _, c := range cases {
-			e.keyFileCase(c, r%2 == 0)
+			e.keyFileCase(c, r%2 == 0, "")
+			if r < 2*e.a.Scale {
+				// the same path states through `bifrost pipe -k <path>` (PipeArgs.loadOrGenerateKey)
+				e.keyFileCase(c, r%2 == 0, "pipe")
+			}
 		}
 	}
+	e.runC39Wave3(k)
 	e.runC39Callers(cases, k)
 }
